@@ -2849,7 +2849,21 @@ theorem findNegativeCycle_fuel (v : View) (hv : ViewArcs v) (hwf : v.g.WellForme
   split
   · simp
   · rename_i i j l hr
-    have := fncLoop_fuel (g := v.g) (bfRelax v s).p j hp (v.g.nodes.length + 2) j [] [] List.nodup_nil
+    have hi : i ∈ v.g.nodes := by
+      have hm : (i, j) ∈ relaxables v (bfRelax v s).d := by rw [hr]; exact List.mem_cons_self ..
+      unfold relaxables at hm
+      obtain ⟨a, ha, hm⟩ := List.mem_flatMap.mp hm
+      obtain ⟨te, _, hm⟩ := List.mem_filterMap.mp hm
+      split at hm
+      · simp only [Option.some.injEq, Prod.mk.injEq] at hm; exact hm.1 ▸ ha
+      · simp at hm
+    have hp' : ∀ x q, tget (tset (bfRelax v s).p j i) x = some q → q ∈ v.g.nodes := by
+      intro x q hq
+      rw [tget_tset] at hq
+      split at hq
+      · simp only [Option.some.injEq] at hq; exact hq ▸ hi
+      · exact hp x q hq
+    have := fncLoop_fuel (g := v.g) (tset (bfRelax v s).p j i) j hp' (v.g.nodes.length + 2) j [] [] List.nodup_nil
       (by simp) (Or.inl rfl) (by simp)
     split
     · rename_i hnone; exact absurd hnone this
